@@ -299,6 +299,10 @@ def run(m, tier):
                rr.rule_queue(m, "C11.R6"), r7_inline_flag(m)]
     from rules import order_rules
     results.append(order_rules.option_forwarding_rule(m, "C11.R8"))
+    from rules import regex_rules
+    r9 = regex_rules.anchor_rule(m, "C11.R9")
+    r9.title = "the directive-prefix patterns (and every other pattern) anchor all alternatives alike: a comment that merely mentions a sentinel is not a directive (shared with C08.R7)"
+    results.append(r9)
     expl = ("Decides structural clauses of C11: per call site of the block engine the class list tried at every position contains the "
             "comment, include, preprocessor (and, exactly under process_directives, directive) classes; comments are collected before "
             "each opening statement and around every program unit, with both collectors in every round; every reader item and every "
